@@ -138,6 +138,15 @@ def _save(cls, data):
             _read_all(IVFCLevel4Reader(p.ivfc_hash_tree))
             p.dpfs_lv3_file.seek(0)
             _read_all(p.dpfs_lv3_file)
+            # ... and in one call, the way a caller that trusts the size fields would (read() with no size)
+            for f in (IVFCLevel4Reader(p.ivfc_hash_tree), p.dpfs_lv3_file):
+                try:
+                    f.seek(0)
+                    f.read()
+                except (MemoryError, RecursionError):
+                    raise
+                except Exception:
+                    pass
     return 'ok'
 
 
